@@ -82,7 +82,15 @@ def handle (op : String) (j : Json) : Except String Json := do
         let h := usageRun fx sf site cs a b ee
         Json.mkObj [("items", Json.arr ((consumerItems h).map (fun o => match o with | none => Json.null | some c => Json.str (String.ofList c))).toArray),
           ("completion", Json.str (String.ofList h.st.completion)), ("finished", Json.bool h.st.finished),
-          ("event", Json.bool (eventSetAt fx site cs a))])).toArray)
+          ("event", Json.bool (eventSetAt fx site cs a)),
+          ("returned", Json.str (String.ofList (waiterReturn fx site cs a)))])).toArray)
+  | "topk" =>
+    -- {"k", "text"}: the line-by-line code and the scans on one buffer
+    let k ← (← j.getObjVal? "k").getNat?
+    let t ← strOf (← j.getObjVal? "text")
+    pure (Json.mkObj [("returned", Json.str (String.ofList (returned k t))), ("rest", Json.str (String.ofList (restBuffer k t))),
+      ("lines", Json.num (qualLines t)), ("scan_rest", Json.str (String.ofList ((dropTopK k none t).getD []))),
+      ("scan_lines", Json.num (qualCount none t))])
   | _ => throw s!"unknown op C18.{op}"
 
 end NemoVerif.Drive.C18
